@@ -8,6 +8,7 @@ import (
 	"fmt"
 	"math/big"
 	"reflect"
+	"strings"
 	"testing"
 
 	"github.com/ethereum/go-ethereum/rlp"
@@ -268,7 +269,7 @@ func trunc(s string, n int) string {
 
 var c13Variants = []string{"changes-hash", "base-plasma", "total-plasma", "both-plasma", "public-key-other", "public-key-empty", "signature-bitflip",
 	"signature-noncanonical-s", "signature-empty", "amount+1", "data+1", "descendant-added", "hash-altered", "to-address", "nonce", "fused-plasma",
-	"descendant-amount", "descendant-data", "descendant-to", "descendant-unhashed"}
+	"descendant-amount", "descendant-data", "descendant-to", "descendant-unhashed", "amount-negated"}
 
 // ed25519 group order L (little endian addition on S)
 var ed25519L, _ = new(big.Int).SetString("7237005577332262213973186563042994240857116359379907606001950938285454250989", 10)
@@ -337,6 +338,12 @@ func makeVariant(c *pbt.C, b *nom.AccountBlock, kind string, keys *sim.KeyRing) 
 		v.Nonce.Data[0] ^= 1
 	case "fused-plasma":
 		v.FusedPlasma++
+	case "amount-negated":
+		// same magnitude = same hash, signature and stored bytes; only JSON text can carry the sign
+		if v.Amount == nil || v.Amount.Sign() <= 0 {
+			return nil
+		}
+		v.Amount = new(big.Int).Neg(v.Amount)
 	case "descendant-amount", "descendant-data", "descendant-to", "descendant-unhashed":
 		// content of a batched send altered while every recorded hash stays
 		if len(v.DescendantBlocks) == 0 {
@@ -428,10 +435,17 @@ func TestC13Variants(t *testing.T) {
 						continue
 					}
 					wire, err := sim.WireBlocks([]*nom.AccountBlock{v})
-					if err != nil {
-						continue // cannot even travel
-					}
+					viaRPC := err != nil || c.Weighted("var.route", 4, 1) == 1
 					n := h.W.CloneStopped(b, "Bv")
+					if viaRPC {
+						// published to the follower through its JSON-RPC interface instead of the peer protocol
+						jb, jerr := sim.ViaPublishJSON(n, v)
+						if jerr != nil {
+							h.W.Drop(n)
+							continue // cannot even travel
+						}
+						wire = []*nom.AccountBlock{jb}
+					}
 					// predecessors of the block within the pool reach the follower first (honest gossip)
 					for _, p := range pool {
 						if p.Address == blk.Address && p.Height < blk.Height && p.BlockType != nom.BlockTypeContractSend {
@@ -440,7 +454,19 @@ func TestC13Variants(t *testing.T) {
 							}
 						}
 					}
-					gerr := n.Bridge.AddAccountBlocks(wire)
+					var gerr error
+					if viaRPC {
+						var tx *nom.AccountBlockTransaction
+						if wire[0].BlockType == nom.BlockTypeContractSend {
+							gerr = fmt.Errorf("can't apply BlockTypeContractSend")
+						} else if tx, gerr = n.Sup.ApplyBlock(wire[0]); gerr == nil {
+							n.CreateAccountBlock(tx)
+							gerr = n.LastBlockErr
+						}
+						kind += "/json-rpc"
+					} else {
+						gerr = n.Bridge.AddAccountBlocks(wire)
+					}
 					c.R.Count("variants_delivered", 1)
 					what := fmt.Sprintf("variant %q of block %v/%d (type %d)", kind, blk.Address, blk.Height, blk.BlockType)
 					if gerr == nil {
@@ -451,7 +477,7 @@ func TestC13Variants(t *testing.T) {
 					idx, err := n.Bridge.InsertChain(h.A.Range(base+1, base+1))
 					if err != nil {
 						key := "C13/variant-blocks-follower/" + kind
-						if kind == "changes-hash" && !types.IsEmbeddedAddress(blk.Address) {
+						if strings.HasPrefix(kind, "changes-hash") && !types.IsEmbeddedAddress(blk.Address) {
 							key = "C13/variant/user-block/ChangesHash"
 						}
 						if c.Failf(key, "%s was %s by the follower's pool; afterwards the follower refuses the producer's momentum (index %d): %v",
